@@ -3,9 +3,9 @@
 import json, sys
 CHECKS = {
  "C01": dict(level="exploration", ref="DESIGN.md §3 C01",
-   text="Generated trees x paths x lookups x resolver flags x kernel configs, every library result compared with the harness's own raw openat2(RESOLVE_IN_ROOT|RESOLVE_NO_MAGICLINKS) on the same unmodified tree, plus containment in the tree snapshot and a syscall-count bound (loops). Search, not proof: absence is never established.",
+   text="Generated trees x paths x lookups x resolver flags x kernel configs, every library result compared with the harness's own raw openat2(RESOLVE_IN_ROOT|RESOLVE_NO_MAGICLINKS) on the same unmodified tree, plus containment in the tree snapshot and a syscall-count bound (loops). The thorough tier adds a coverage-guided libFuzzer campaign (fuzz/fuzz_targets/fz_lookup.rs: raw path bytes against a fixed rich tree, same kernel oracle in-target, emulated and kernel back-end). Search, not proof: absence is never established.",
    note="Trusts the running kernel's openat2 as reference semantics; openat2 absence is emulated by a seccomp ENOSYS filter on the library thread; tmpfs only; >40 link traversals outside the compared domain.",
-   technique="property-based testing (proptest) with a differential kernel oracle, fork-per-case, seccomp kcfg"),
+   technique="property-based testing (proptest) with a differential kernel oracle, fork-per-case, seccomp kcfg; thorough tier: plus coverage-guided fuzzing (cargo-fuzz/libFuzzer) with the same oracle"),
  "C04": dict(level="exploration", ref="DESIGN.md §3 C04",
    text="Generated tree x sequence of 1-6 Root operations (all kinds, paths incl. '', NUL, '..', trailing slashes) run twice in fresh processes, with openat2 available and with openat2 answering ENOSYS; step-by-step differential comparison of Ok/Err, error kind, errno, returned object, type, F_GETFL status bits, FD_CLOEXEC, link bodies, and of the final path-projected tree. Search, not proof.",
    note="Backend selection by seccomp ENOSYS on the library thread (verified per case by a probe); differences must reproduce in 4 runs because openat2 fails spuriously under system-wide mount/rename activity; >40 traversals and flag sets the kernel rejects are outside the domain; tmpfs only.",
@@ -43,20 +43,20 @@ CHECKS = {
    note="Kernel *at calls are the reference; O_CREAT|O_PATH excluded here (C03); >40 traversals outside the domain; tmpfs only.",
    technique="property-based differential testing against raw *at system calls on a twin tree"),
  "C06": dict(level="exploration", ref="DESIGN.md §3 C06",
-   text="In a private mount namespace the harness places generated sets of tmpfs/bind over-mounts on procfs entries (files, dirs, links, magic-links) and creates every kind of handle itself, so it knows which handles can see which mounts and which dentries each request walks through; every open/open_follow/readlink result is compared by identity with the same lookup on a pristine descriptor of the same procfs instance made before the mounts; visible over-mounts on the way must give EXDEV.",
-   note="Needs CAP_SYS_ADMIN (mount namespace); mount ids reported by the kernel; the racing-mount placements during a lookup are not enumerated (only mounts in place before the call).",
+   text="In a private mount namespace the harness places generated sets of tmpfs/bind over-mounts on procfs entries (files, dirs, links, magic-links) and creates every kind of handle itself, so it knows which handles can see which mounts and which dentries each request walks through; every open/open_follow/readlink result is compared by identity with the same lookup on a pristine descriptor of the same procfs instance made before the mounts; visible over-mounts on the way must give EXDEV. A second driver re-runs one non-following call with one over-mount appearing / blinking / vanishing before every one of its system calls (placements enumerated through the syscall gate): success must be the genuine object, private handles must be unaffected.",
+   note="Needs CAP_SYS_ADMIN (mount namespace); mount ids reported by the kernel; racing mounts are placed at syscall boundaries of the library, not inside a single openat2 walk.",
    technique="property-based testing in a mount namespace with an identity oracle against a pristine procfs view and a visibility/traversal model"),
  "C07": dict(level="exploration", ref="DESIGN.md §3 C07",
    text="Sub-paths drawn from a live enumeration of /proc, /proc/self and /proc/thread-self (plain, decorated, hostile), every op, base, flag set incl. creation flags, five handle kinds, both procfs resolvers; shape oracles (refusals, no-follow, containment) plus identity against the harness's own O_NOFOLLOW walk on the same procfs instance, plus resolver equivalence.",
    note="Identity oracles only for try_from_fd handles (same procfs instance as the harness's descriptor); thread-id dependent names are normalised for the cross-resolver comparison.",
    technique="property-based testing over live procfs enumeration with differential oracles (pristine walk, two resolvers)"),
  "C09": dict(level="exploration", ref="DESIGN.md §3 C09",
-   text="Handle of every inode type placed at chosen descriptor numbers (0 included), reopened with generated flags after a generated history of renames/replacements/unlinks, on normal and over-mounted host /proc, as root and as an unprivileged user, under five kernel configurations, via Rust and C API; result must be the handle's inode with the kernel's own flags/errno (reference: the kernel's open of the same inode through a pristine fd link), ELOOP for links, refusal of creation flags, errors only from visible over-mounts.",
+   text="Handle of every inode type placed at chosen descriptor numbers (0 included), from a thread that shares the descriptor table or has its own (decoy at the same number in the leader), reopened with generated flags after a generated history of renames/replacements/unlinks, on normal and over-mounted host /proc, as root and as an unprivileged user, under five kernel configurations, via Rust and C API; result must be the handle's inode with the kernel's own flags/errno (reference: the kernel's open of the same inode through a pristine fd link), ELOOP for links, refusal of creation flags, errors only from visible over-mounts.",
    note="The handle descriptor is made by the harness and wrapped with Handle::from_fd; visibility of over-mounts is derived from the caller's ability to create a private procfs and the kernel configuration.",
    technique="property-based testing with history generation and a kernel reference open"),
  "C08": dict(level="exploration", ref="DESIGN.md §3 C08",
-   text="The full product of the quantifier (810 combinations of privilege x /proc mount options x constructor x base x sub-path kind x RLIMIT_NOFILE) is enumerated; each call runs under the observing gate, which counts procfs handle creations, procfs-root acquisitions, open descriptors and syscalls and unwinds runaway calls; missing paths must report ENOENT.",
-   note="Needs CAP_SYS_ADMIN/CAP_SETUID; handle creations are counted by their fsopen(2) attempt (running kernel has fsopen).",
+   text="The full product of the quantifier (3240 combinations of privilege x /proc mount options x constructor x base x sub-path kind x RLIMIT_NOFILE x kernel mount-API configuration) is enumerated; each call runs under the observing gate, which counts procfs handle creations, procfs-root acquisitions, open descriptors and syscalls and unwinds runaway calls; missing paths must report ENOENT.",
+   note="Needs CAP_SYS_ADMIN/CAP_SETUID; handle creations are counted by the first mount-API stage the kernel configuration offers (fsopen, open_tree, open of /proc).",
    technique="exhaustive enumeration of a finite configuration product with resource counters from a seccomp observer"),
  "C15": dict(level="exploration", ref="DESIGN.md §3 C15",
    text="All 2520 combinations of sysctl value, directory mode/owner, link owner, caller (incl. real != effective uid) and link position are enumerated with the real fs.protected_symlinks set; the emulated backend and the openat2 backend are compared with the kernel's own openat2(RESOLVE_IN_ROOT) issued as the same user on the same tree.",
@@ -99,7 +99,7 @@ def main():
       "version": 1,
       "setup_cmd": "cd /verif/harness && CARGO_NET_OFFLINE=true cargo build --release --offline && cd /verif/c18/ref && CARGO_NET_OFFLINE=true cargo build --release --offline",
       "hooks": {"guard": "none", "enable": "no source hooks: kernel-feature selection, fault injection and scheduling are done from outside with a seccomp user-notification gate", "baseline_off_cmd": "/verif/bin/repo-tests", "source_commits": [], "add_only": True},
-      "engines": [{"name": "c18", "path": "/verif/c18", "serves_properties": ["C18"], "kind_free_text": "python3-vt driver (hypothesis) + gcc-compiled C shim against include/pathrs.h + Rust-API reference executor"}, {"name": "pv", "path": "/verif/harness", "serves_properties": [c["property_id"] for c in checks], "kind_free_text": "proptest-driven generated search from a binary; fork per case; seccomp user-notification syscall gate (observe / ENOSYS kcfg / fault injection / attacker placement / thread scheduling); kernel openat2 as differential oracle"}],
+      "engines": [{"name": "c18", "path": "/verif/c18", "serves_properties": ["C18"], "kind_free_text": "python3-vt driver (hypothesis) + gcc-compiled C shim against include/pathrs.h + Rust-API reference executor"}, {"name": "fuzz", "path": "/verif/fuzz", "serves_properties": ["C01"], "kind_free_text": "cargo-fuzz/libFuzzer target with in-target kernel oracle (thorough tier supplement, driven by bin/fuzz-supplement)"}, {"name": "pv", "path": "/verif/harness", "serves_properties": [c["property_id"] for c in checks], "kind_free_text": "proptest-driven generated search from a binary; fork per case; seccomp user-notification syscall gate (observe / ENOSYS kcfg / fault injection / attacker placement / thread scheduling); kernel openat2 as differential oracle"}],
       "checks": checks,
       "not_applicable": notapp,
       "notes": "Exit codes of every command: 0 held on everything explored (KNOWN-FINDING lines possible), 1 VIOLATION line(s), 2 harness/environment problem (nothing claimed). VERIF_SEED selects the PRNG seed (default 1). Known findings: /verif/known_findings.json.",
